@@ -426,7 +426,8 @@ class Expr:
             value, like = self.operands
             r = (
                 "z_" + self.kind,  # prefix `z_` ensures that constants are sorted as largest kinds
-                value.key if isinstance(value, Expr) else (value, type(value).__name__),
+                # repr distinguishes the sign of zero: 0.0 == -0.0 but these are different constants
+                value.key if isinstance(value, Expr) else (value, type(value).__name__, repr(value)),
                 like.key,
             )
         else:
